@@ -70,6 +70,9 @@ AtEnd == (l = Len(T.ev) + 1) =>
      IN Say(Cardinality(entered) = F.inputheavy, <<"INPUT", T.id, Cardinality(entered), F.inputheavy>>)
   /\ Say(ToSet(F.matched) \cap ToSet(F.missed) = {} /\ ToSet(F.matched) \cup ToSet(F.missed) = ToSet(F.alive)
          /\ Len(F.matched) + Len(F.missed) = Len(F.alive), <<"PARTITION", T.id, Len(F.matched), Len(F.missed), Len(F.alive)>>)
+  \* whatever else is wrong with the two lists: no atom of the final model is in neither of them
+  /\ Say(ToSet(F.alive) \subseteq ToSet(F.matched) \cup ToSet(F.missed),
+         <<"UNACCOUNTED", T.id, Cardinality(ToSet(F.alive) \ (ToSet(F.matched) \cup ToSet(F.missed)))>>)
   /\ Say(F.written = F.matched, <<"WRITTEN", T.id, Len(F.written), Len(F.matched)>>)
   /\ PrintT(<<"END", T.id>>)
 ================================================================================
